@@ -44,7 +44,10 @@ def spec(tier, seed):
     rels = ["same day", "nextUpdate one day later", "nextUpdate one day earlier", "both in 2050 (GeneralizedTime form), one day apart"]
     for rel, what in enumerate(rels):
         for n_ku in (0, 1, 2):
-            # (the 2050 relation needs > 15 min of symbolic execution: thorough tier only)
+            # (the 2050 relation - GeneralizedTime form with symbolic time of day - did not finish symbolic execution in 50 min: not claimed;
+            #  the GeneralizedTime form itself is decided with concrete times by the CRL shapes and for every date-time by c04_time_forms / C09)
+            if rel == 3:
+                continue
             if tier == "quick" and (rel, n_ku) not in ((0, 0), (0, 2), (1, 1), (2, 0)):
                 continue
             qs.append(Query(name=f"c08_guards_{rel}_{n_ku}", body=f"    crl::guards({rel}, {n_ku});", unwind=40, family="crl_guards", stubs=S1,
@@ -53,7 +56,7 @@ def spec(tier, seed):
     return {"queries": qs, "mir": run_mir, "exhaustive": False,
             "bounds": "CRL shapes: <= 2 revoked entries, every reason code and none, invalidity date present/absent, IDP none/no scope/user/CA with 1..2 "
                       "URIs, key-id methods, serial / CRL-number length <= 4 with first byte from {01,7f,80,ff} (tail symbolic), times concrete and pairwise "
-                      "distinct; guards: four date relations x symbolic time of day incl. nanoseconds x symbolic issuer usages",
+                      "distinct; guards: three date relations (same day, one day later, one day earlier; years < 2050) x symbolic time of day incl. nanoseconds x symbolic issuer usages",
             "outside": "verdict of an external revocation checker (reduced to: the serial INTEGER values in the list are exactly the given ones); "
                        "non-empty issuer names (engine M)",
             "assumptions": ["S1, S2, S3 as in DESIGN.md 2.2", "array-backed revoked-entry vector", "CBMC --max-field-sensitivity-array-size 2048"]}
